@@ -42,6 +42,8 @@ type Desc struct {
 	Fleets   []Fleet    `json:"fleets,omitempty"`
 	// SliceFleets: one []util.Option value spread into several constructor calls (oneslice.go)
 	SliceFleets []SliceFleet `json:"slice_fleets,omitempty"`
+	// Open: sessions whose settings are re-read after Open / use / Close (open.go)
+	Open []OpenScenario `json:"open,omitempty"`
 }
 
 // ---------------------------------------------------------------------------------------------
@@ -135,7 +137,67 @@ func genPlatDef(r *rand.Rand) *PlatDef {
 			d.Options = append(d.Options, genPlatOpt(r, d.Options[r.Intn(len(d.Options))].Name))
 		}
 	}
+	if r.Intn(10) < 3 { // built through NewPlatformVariant; the variant never names options
+		v := &PlatVariant{DriverType: r.Intn(3) == 0}
+		switch r.Intn(4) {
+		case 0: // states nothing
+		case 1:
+			v.FailedWhen = listPool[2+r.Intn(len(listPool)-2)]
+		case 2:
+			v.HasPrivs, v.Privs, v.DDP = true, r.Intn(3), ps(r, []string{"", "exec", "privilege-exec"})
+		default:
+			v.FailedWhen = listPool[2+r.Intn(len(listPool)-2)]
+			v.OnOpen, v.OnClose, v.NetOnOpen, v.NetOnClose = r.Intn(2) == 0, r.Intn(2) == 0, r.Intn(2) == 0, r.Intn(2) == 0
+			v.DDP = ps(r, []string{"", "configuration"})
+		}
+		d.Variant = v
+	}
 	return d
+}
+
+// genPlatformVariants: every platform option in the DEFAULT's options block, the platform built
+// through NewPlatformVariant with a variant that names no options (states nothing / other blocks
+// only): the default's options must all still take effect, user options still win.
+func genPlatformVariants(r *rand.Rand) []List {
+	var out []List
+	shapes := []PlatVariant{
+		{},
+		{FailedWhen: []string{"% variant"}},
+		{HasPrivs: true, Privs: 2, DDP: "configuration"},
+		{OnOpen: true, NetOnClose: true, DriverType: true},
+	}
+	for _, ps := range platSpecs {
+		user := userFor[ps.Name]
+		if user == "" {
+			user = ps.To(PlatOpt{}).N
+		}
+		for _, k := range []string{kPlatGen, kPlatNet} {
+			for si := range shapes {
+				v := shapes[si]
+				po := genPlatOpt(r, ps.Name)
+				def := func(o ...PlatOpt) *PlatDef {
+					vv := v
+					return &PlatDef{Privs: 1, DDP: "exec", FailedWhen: []string{"% default"}, Options: o, Variant: &vv}
+				}
+				out = append(out,
+					List{K: k, Home: "A", Hint: ps.Name, Plat: def(po)},
+					List{K: k, Home: "A", Hint: ps.Name, Plat: def(genPlatOpt(r, "port"), po, genPlatOpt(r, "timeout-ops"))},
+					List{K: k, Home: "A", Hint: ps.Name, Plat: def(po), Opts: []Opt{specByName[user].Gen(r)}})
+			}
+		}
+	}
+	// a full block under every shape
+	for _, k := range []string{kPlatGen, kPlatNet} {
+		for si := range shapes {
+			v := shapes[si]
+			var all []PlatOpt
+			for _, ps := range platSpecs {
+				all = append(all, genPlatOpt(r, ps.Name))
+			}
+			out = append(out, List{K: k, Home: "A", Hint: "all", Plat: &PlatDef{Privs: 1, DDP: "exec", Options: all, Variant: &v}})
+		}
+	}
+	return out
 }
 
 func genRandomList(r *rand.Rand) List {
@@ -370,6 +432,7 @@ func gen(tier string, seed int64) []mon.Case {
 	for _, sp := range specs {
 		cs = append(cs, mon.MkCase("c19/single/"+sp.Name, Desc{Kind: "lists", What: "single:" + sp.Name, Lists: genSingles(r, sp)}))
 	}
+	cs = append(cs, mon.MkCase("c19/platform-variant", Desc{Kind: "lists", What: "platform-variant", Lists: genPlatformVariants(r)}))
 	cs = append(cs, mon.MkCase("c19/invalid/network-required-options", Desc{Kind: "lists", What: "invalid:network-required-options", Lists: genNetworkRequired()}))
 	for _, ps := range platSpecs {
 		cs = append(cs, mon.MkCase("c19/platform-option/"+ps.Name, Desc{Kind: "lists", What: "platform-option:" + ps.Name, Lists: genPlatformOption(r, ps)}))
@@ -396,6 +459,18 @@ func gen(tier string, seed int64) []mon.Case {
 			d.SliceFleets = append(d.SliceFleets, genSliceFleet(r))
 		}
 		cs = append(cs, mon.MkCase(fmt.Sprintf("c19/one-slice/%04d", b), d))
+	}
+	cs = append(cs, mon.MkCase("c19/open/dedicated", Desc{Kind: "open", What: "open:dedicated", Open: genDedicatedOpen()}))
+	ob, oper := 2, 40
+	if tier == "thorough" {
+		ob, oper = 20, 60
+	}
+	for b := 0; b < ob; b++ {
+		d := Desc{Kind: "open", What: "open:random"}
+		for i := 0; i < oper; i++ {
+			d.Open = append(d.Open, genOpenScenario(r))
+		}
+		cs = append(cs, mon.MkCase(fmt.Sprintf("c19/open/%04d", b), d))
 	}
 	batches, per := 100, 40
 	if tier == "thorough" {
@@ -715,6 +790,8 @@ func run(c mon.Case) mon.Result {
 		return runFleets(d)
 	case "oneslice":
 		return runSliceFleets(d)
+	case "open":
+		return runOpenScenarios(d)
 	}
 	return runLists(d)
 }
